@@ -26,7 +26,7 @@ type Result struct {
 	Digest     uint64          `json:"digest"`
 	Steps      int             `json:"steps"`
 	SimNS      int64           `json:"sim_ns"`
-	Class      string          `json:"class,omitempty"` // coarse behaviour class of the run
+	Class      string          `json:"class,omitempty"`   // coarse behaviour class of the run
 	Classes    []string        `json:"classes,omitempty"` // further behaviour classes covered by the run
 	Nontrivial bool            `json:"nontrivial"`
 	Stats      map[string]int  `json:"stats,omitempty"`
@@ -107,3 +107,8 @@ func Chance(r *rand.Rand, pct int) bool { return r.IntN(100) < pct }
 
 // Mode is set by the worker binary's build: "pristine" or "instr".
 var Mode = "pristine"
+
+// Abandon is set by a harness when a run left a goroutine behind that cannot
+// be stopped (library code that does not terminate): the worker reports the
+// run and exits, the driver starts a fresh process.
+var Abandon bool
